@@ -37,4 +37,10 @@ int encode_operands(struct instr *instrc);
  */
 void encode_imm(struct instr *instrc);
 
+/**
+ * mode bits for the width of the first operand of @param instrc (for a memory
+ * operand that of its size keyword)
+ */
+unsigned int opd0_width_mode(struct instr *instrc);
+
 #endif
